@@ -46,6 +46,7 @@ def percentile(a, pct, axis=0, newaxis=None, out=None, overwrite_input=False):
     subaxes = [ax for ax in a.axes if ax.name != nm]
     if np.isscalar(pct):
         results = da.DimArray(results, axes=subaxes)
+        results.attrs.update(a.attrs)
 
     # pct is array-like, recreate a Dimarray
     else:
@@ -53,6 +54,7 @@ def percentile(a, pct, axis=0, newaxis=None, out=None, overwrite_input=False):
             newaxis = nm + '_percentile'
         results = [da.DimArray(res, axes=subaxes) for res in results] # list of DimArrays
         results = da.stack(results, keys=pct, axis=newaxis) # stack in a larger DimArray
+        results.attrs.update(a.attrs)
 
     return results
 
